@@ -79,6 +79,8 @@ type upFS struct {
 	failWriteN  int // ... at the n-th Write call of that file
 	failCloseOf int // file whose Close fails
 	closedErr   []string
+	fired       bool        // an injected fault was actually delivered
+	writesBy    map[int]int // Write calls per file (create order)
 }
 
 type upWriter struct {
@@ -94,6 +96,7 @@ func (f *upFS) NewWriter(ctx context.Context, name string, meta map[string]strin
 	n := f.creates
 	f.mu.Unlock()
 	if n == f.failCreate {
+		f.fired = true
 		return nil, errInjected
 	}
 	w, err := f.inner.NewWriter(ctx, name, meta)
@@ -105,7 +108,14 @@ func (f *upFS) NewWriter(ctx context.Context, name string, meta map[string]strin
 
 func (w *upWriter) Write(p []byte) (int, error) {
 	w.writes++
+	w.parent.mu.Lock()
+	if w.parent.writesBy == nil {
+		w.parent.writesBy = map[int]int{}
+	}
+	w.parent.writesBy[w.idx]++
+	w.parent.mu.Unlock()
 	if w.idx == w.parent.failWriteOf && w.writes == w.parent.failWriteN {
+		w.parent.fired = true
 		return 0, errInjected
 	}
 	return w.Writer.Write(p)
@@ -114,6 +124,7 @@ func (w *upWriter) Write(p []byte) (int, error) {
 func (w *upWriter) Close() error {
 	if w.idx == w.parent.failCloseOf {
 		// a failing close must not leave the file behind either
+		w.parent.fired = true
 		w.Writer.CloseWithError(errInjected)
 		return errInjected
 	}
@@ -380,6 +391,16 @@ func upReplayFault(c *upCase) Verdict {
 		}
 	case "file": // created, header not yet written
 		vs = append(vs, upVariant{"header-write-error", func(a *upApp) { a.ffs.failWriteOf, a.ffs.failWriteN = f+1, 1 }, whole})
+		// "a storage write error at any point": every Write call this file receives in a fault-free
+		// run (metadata lines, the separator, each chunk of content), one at a time
+		nw, err := upCountWrites(full, f+1, salt)
+		if err != nil {
+			return fail("harness", "%v", err)
+		}
+		for k := 2; k <= nw; k++ {
+			k := k
+			vs = append(vs, upVariant{fmt.Sprintf("write-error-%d-of-%d", k, nw), func(a *upApp) { a.ffs.failWriteOf, a.ffs.failWriteN = f+1, k }, whole})
+		}
 	case "body":
 		j := c.Fault.Rec
 		ends := full.recEnd[f-1]
@@ -454,6 +475,36 @@ func upReplayFault(c *upCase) Verdict {
 	return pass()
 }
 
+func upAllVisible(files, recs int) [][]int {
+	var v [][]int
+	for f := 1; f <= files; f++ {
+		for r := 1; r <= recs; r++ {
+			v = append(v, []int{f, r})
+		}
+	}
+	return v
+}
+
+// upCountWrites runs the upload without any fault (after the same earlier upload as
+// upRunVariant) and returns how many Write calls the file with the given create index got.
+func upCountWrites(full *upBody, idx int, salt int) (int, error) {
+	a, err := upNewApp(false, false)
+	if err != nil {
+		return 0, err
+	}
+	defer a.close()
+	early := upBuildBody(1, 2, 0, 0, salt+7777)
+	if code, resp := a.post(early.ctype, bytes.NewReader(early.data)); code != 200 {
+		return 0, fmt.Errorf("earlier upload failed: %d %s", code, resp)
+	}
+	if code, resp := a.post(full.ctype, bytes.NewReader(full.data)); code != 200 {
+		return 0, fmt.Errorf("fault-free upload failed: %d %s", code, resp)
+	}
+	a.ffs.mu.Lock()
+	defer a.ffs.mu.Unlock()
+	return a.ffs.writesBy[idx], nil
+}
+
 var upIDRe = regexp.MustCompile(`^[0-9]{8}\.[0-9]+$`)
 
 func upRunVariant(c *upCase, v upVariant, useLocal bool, salt int, anyStored bool) Verdict {
@@ -489,9 +540,17 @@ func upRunVariant(c *upCase, v upVariant, useLocal bool, salt int, anyStored boo
 	ctype, body := v.body()
 	code, resp = a.post(ctype, body)
 	ok := code == 200
+	if v.setup != nil && !a.ffs.fired && ok {
+		// the storage fault was never delivered (the server wrote this file with fewer calls than
+		// the position chosen): a fault-free upload, which must then be complete
+		c = &upCase{Files: c.Files, Recs: c.Recs, OK: true, Visible: upAllVisible(c.Files, c.Recs)}
+	}
 	if anyStored && ok {
 		// a cut so late that the server had everything: then all of it must be there
 		c = &upCase{Files: c.Files, Recs: c.Recs, OK: true, Visible: c.Visible}
+	}
+	if ok && !c.OK && v.setup != nil && a.ffs.fired && strings.Contains(v.name, "write-error") {
+		return fail("storage-write-error-ignored", "a Write call of the file store returned an error and the upload was nevertheless accepted: HTTP %d %q", code, strings.TrimSpace(resp))
 	}
 	if ok != c.OK {
 		return fail("status", "HTTP %d %q, want success=%v", code, strings.TrimSpace(resp), c.OK)
